@@ -305,7 +305,15 @@ def pdom_breaker(ctx, prog):
             ctx.fail(R, "weak-maps:gc", "stabilise_end no longer sweeps the registered weak maps", fn=SE)
 
 
-for _f, _id in ((tyg_strong, "C12.TYG-strong"), (pdom_breaker, "C12.PDOM-breaker")):
+def unlink_queued(ctx, prog):
+    # an in-use observer is held by State.all_observers until unlink_disallowed_observers removes it, and that only
+    # visits queued observers: disallowing an InUse observer must always queue it (table shared with C09)
+    from .c09 import sign_unsub
+    from .engine import run_relabelled
+    run_relabelled(ctx, prog, sign_unsub, "C09.SIGN-unsub", "C12.SIGN-unlink-queued")
+
+
+for _f, _id in ((tyg_strong, "C12.TYG-strong"), (pdom_breaker, "C12.PDOM-breaker"), (unlink_queued, "C12.SIGN-unlink-queued")):
     _f.rule_id = _id
 
-RULES = [tyg_strong, pdom_breaker]
+RULES = [tyg_strong, pdom_breaker, unlink_queued]
